@@ -1299,6 +1299,18 @@ def check_c02(pid, tier, build, props):
                         "(%d meet them), first: %r" % (lht["plain_rotations_or_early_returns_not_meeting_them"],
                                        lht["plain_rotations_meeting_path_theorem_hypotheses"] + lht["early_returns_meeting_path_theorem_hypotheses"],
                                        lht["plain_rotation_unmet_examples"][:1]))
+    from . import ibcalls
+    ibt = ibcalls.tie(tier, common.seed())
+    ib_tie_ok = ibt["mismatch_count"] == 0 and not ibt["harness_errors"] and ibt["agree"] > 0
+    if not ib_tie_ok:
+        problems.append("correspondence insert_block (pipeline calls, any level) = Model/InsHier.v broken: %d calls "
+                        "differ, first: %r%s" % (ibt["mismatch_count"], ibt["mismatches"][:1],
+                                                 (" harness: %r" % ibt["harness_errors"][:1]) if ibt["harness_errors"] else ""))
+    if ibt.get("single_successor_insertions_not_meeting_them"):
+        problems.append("the hypotheses of the universal path theorem for single-successor insertions at any level do "
+                        "not hold on %d calls the pipeline makes (%d meet them), first: %r"
+                        % (ibt["single_successor_insertions_not_meeting_them"],
+                           ibt["single_successor_insertions_meeting_path_theorem_hypotheses"], ibt["unmet_examples"][:1]))
     from . import extractcalls
     xt_ = extractcalls.tie(tier, common.seed())
     extract_tie_ok = xt_["mismatch_count"] == 0 and not xt_["harness_errors"] and xt_["agree"] > 0
@@ -1351,6 +1363,12 @@ def check_c02(pid, tier, build, props):
                                           "restructures a graph (all levels of the hierarchy): the hierarchy after "
                                           "the call equals Extract.extract of the hierarchy before it, block for "
                                           "block with children in dictionary order"),
+        "insert_block_hierarchy_model": dict(ibt, holds=ib_tie_ok,
+                                             role="every call of SCFG.insert_block made while the pipeline restructures a "
+                                                  "graph (join_returns, join_tails_and_exits, insert_SyntheticFill; any "
+                                                  "level; predecessors that are regions or branching blocks): the "
+                                                  "hierarchy after the call equals InsHier.insert_block_h of the hierarchy "
+                                                  "before it"),
         "loop_helper_hierarchy_model": dict(lht, holds=looph_tie_ok,
                                             role="every call of transformations.loop_restructure_helper made while the "
                                                  "pipeline restructures a graph (outermost and nested levels, exits "
